@@ -20,6 +20,7 @@ type gstate struct {
 	nrule int
 	ngarb int
 	built bool // some build has happened since the last change (for repeats)
+	noutside int
 	listed []string // packages currently listed in WORKSPACE.caco3
 }
 
@@ -63,6 +64,55 @@ func (g *gstate) addFile(name string) SrcFile {
 	f := SrcFile{Name: name, Content: c, Stat: Stat{Size: int64(len(c)), Mtime: g.now(), Mode: mode}}
 	g.src[name] = f
 	return f
+}
+
+const linkMode = uint32(1<<27 | 0o777) // uint32(fs.ModeSymlink | 0777): what lstat reports for a link
+
+// linkTargets: what a link in package pkg (optionally in its d/ directory)
+// may point to: a file of the same package (a dependency of some set or not),
+// a file of another package, a file outside the source tree, nothing, a
+// directory.
+func (g *gstate) linkTarget(pkg string, inD bool) string {
+	up := ""
+	if inD {
+		up = "../"
+	}
+	switch g.r.Intn(7) {
+	case 0:
+		return up + "a.txt"
+	case 1:
+		return up + "d/e.txt"
+	case 2:
+		other := g.pkgs[g.r.Intn(len(g.pkgs))]
+		return up + "../" + other + "/b.txt"
+	case 3:
+		return up + "../../outside/o.txt"
+	case 4:
+		return "nowhere"
+	case 5:
+		return up + "d"
+	default: // some existing file of the package, by its real name
+		for _, n := range g.srcNames() {
+			if strings.HasPrefix(n, pkg+"/") && g.src[n].Link == "" {
+				return up + strings.TrimPrefix(n, pkg+"/")
+			}
+		}
+		return up + "notes.md"
+	}
+}
+
+func (g *gstate) addLink(name, target string) SrcFile {
+	f := SrcFile{Name: name, Link: target, Stat: Stat{Size: int64(len(target)), Mtime: g.now(), Mode: linkMode}}
+	g.src[name] = f
+	return f
+}
+
+// newLinkName: a name that selections pick up (*.txt, *.go, d/*.txt, **).
+func (g *gstate) newLinkName(pkg string) (string, bool) {
+	g.nfile++
+	shapes := []string{"lk%d.txt", "lk%d.go", "d/lk%d.txt", "lk%d"}
+	i := g.r.Intn(len(shapes))
+	return pkg + "/" + fmt.Sprintf(shapes[i], g.nfile), i == 2
 }
 
 func copyRules(rs []Rule) []Rule {
@@ -249,6 +299,52 @@ func (g *gstate) srcOp() (Op, bool) {
 	if !ok {
 		kind = 12
 	}
+	if g.r.Intn(12) == 0 { // the file outside the source tree (target of some links) is edited / touched
+		g.noutside++
+		c := fmt.Sprintf("outside v%d %s\n", g.noutside, strings.Repeat("y", g.r.Intn(5)))
+		return Op{K: "outside", What: "edit-outside-target", Content: c, Stat: &Stat{Mtime: g.now()}}, true
+	}
+	if ok && g.src[name].Link != "" && kind < 12 {
+		f := g.src[name]
+		g.old = append(g.old, f)
+		switch g.r.Intn(4) {
+		case 0: // the link itself is touched (lutimes)
+			f.Stat.Mtime = g.now()
+			g.src[name] = f
+			st := f.Stat
+			return Op{K: "src", What: "touch", Name: name, Stat: &st, Link: f.Link}, true
+		case 1: // retarget
+			pkg := strings.SplitN(name, "/", 2)[0]
+			t := g.linkTarget(pkg, strings.Contains(strings.TrimPrefix(name, pkg+"/"), "/"))
+			f = g.addLink(name, t)
+			st := f.Stat
+			return Op{K: "src", What: "retarget-link", Name: name, Stat: &st, Link: f.Link}, true
+		case 2: // the link is replaced by a regular file of that name
+			nf := g.addFile(name)
+			st := nf.Stat
+			return Op{K: "src", What: "link-to-file", Name: name, Stat: &st, Content: nf.Content}, true
+		default:
+			delete(g.src, name)
+			return Op{K: "src", What: "delete", Name: name}, true
+		}
+	}
+	if ok && g.src[name].Link == "" && g.r.Intn(25) == 0 { // a regular file is replaced by a link
+		g.old = append(g.old, g.src[name])
+		pkg := strings.SplitN(name, "/", 2)[0]
+		f := g.addLink(name, g.linkTarget(pkg, strings.Count(name, "/") > 1))
+		st := f.Stat
+		return Op{K: "src", What: "file-to-link", Name: name, Stat: &st, Link: f.Link}, true
+	}
+	if kind >= 12 && kind < 15 && g.r.Intn(4) == 0 { // a new link
+		pkg := g.pkgs[g.r.Intn(len(g.pkgs))]
+		n, inD := g.newLinkName(pkg)
+		if _, dup := g.src[n]; dup {
+			return Op{}, false
+		}
+		f := g.addLink(n, g.linkTarget(pkg, inD))
+		st := f.Stat
+		return Op{K: "src", What: "add-link", Name: n, Stat: &st, Link: f.Link}, true
+	}
 	switch {
 	case kind < 6: // edit: new content, new mtime
 		f := g.src[name]
@@ -315,7 +411,7 @@ func (g *gstate) srcOp() (Op, bool) {
 		}
 		g.src[f.Name] = f
 		st := f.Stat
-		return Op{K: "src", What: "restore", Name: f.Name, Stat: &st, Content: f.Content}, true
+		return Op{K: "src", What: "restore", Name: f.Name, Stat: &st, Content: f.Content, Link: f.Link}, true
 	}
 }
 
@@ -482,6 +578,15 @@ func history(r *hx.Rng, stream string, maxOps int) Case {
 			name := p + "/" + fileShapes[r.Intn(len(fileShapes))]
 			if _, dup := g.src[name]; !dup {
 				g.addFile(name)
+			}
+		}
+	}
+	if r.Intn(2) == 0 { // some sources are symbolic links
+		for i := 0; i < 1+r.Intn(3); i++ {
+			pkg := g.pkgs[r.Intn(len(g.pkgs))]
+			n, inD := g.newLinkName(pkg)
+			if _, dup := g.src[n]; !dup {
+				g.addLink(n, g.linkTarget(pkg, inD))
 			}
 		}
 	}
@@ -813,6 +918,66 @@ func nestedCorpus() []Case {
 	return cs
 }
 
+// linkCorpus: sources that are symbolic links - to a file of the tree that
+// is itself listed by the set, to one that is not, to a file outside the
+// source tree, dangling, to a directory - and what can happen to them: the
+// TARGET is edited or touched (the link untouched), the link is retargeted,
+// touched itself, replaced by a file and back.  What a file set records for a
+// link is the link's own lstat, and that is what its digest covers.
+func linkCorpus() []Case {
+	st := func(size int64, tick int64) Stat {
+		return Stat{Size: size, Mtime: (baseTime + tick) * 1000000000, Mode: 0o644}
+	}
+	file := func(name, content string, tick int64) SrcFile {
+		return SrcFile{Name: name, Content: content, Stat: st(int64(len(content)), tick)}
+	}
+	link := func(name, target string, tick int64) SrcFile {
+		return SrcFile{Name: name, Link: target, Stat: Stat{Size: int64(len(target)), Mtime: (baseTime + tick) * 1000000000, Mode: linkMode}}
+	}
+	set := func(name, content string, tick int64) Op {
+		s := st(int64(len(content)), tick)
+		return Op{K: "src", What: "edit", Name: name, Stat: &s, Content: content}
+	}
+	setLink := func(what, name, target string, tick int64) Op {
+		l := link(name, target, tick)
+		s := l.Stat
+		return Op{K: "src", What: what, Name: name, Stat: &s, Link: target}
+	}
+	outside := func(content string, tick int64) Op {
+		return Op{K: "outside", What: "edit-outside-target", Content: content, Stat: &Stat{Mtime: (baseTime + tick) * 1000000000}}
+	}
+	build := func(ts ...string) Op { return Op{K: "build", Targets: ts} }
+	links := Rule{K: "file_set", Dir: "p0", Local: "links", Name: "p0/links",
+		Files: []string{"p0/in.lnk", "p0/other.lnk", "p0/out.lnk", "p0/dangling.lnk", "p0/dir.lnk", "p0/listed.txt"}}
+	sel := Rule{K: "file_set", Dir: "p0", Local: "sel", Name: "p0/sel", Sels: []Sel{{K: "all", Dir: "p0", Raw: "**"}}}
+	all := Rule{K: "file_set", Dir: "p0", Local: "all", Name: "p0/all", Include: []string{"p0/links", "p0/sel"}}
+	src := []SrcFile{file("p0/listed.txt", "listed\n", 1), file("p0/unlisted.txt", "unlisted\n", 2), file("p0/d/deep.txt", "deep\n", 3),
+		link("p0/in.lnk", "listed.txt", 4), link("p0/other.lnk", "unlisted.txt", 5), link("p0/out.lnk", "../../outside/o.txt", 6),
+		link("p0/dangling.lnk", "nowhere", 7), link("p0/dir.lnk", "d", 8)}
+	var cs []Case
+	for _, style := range []string{"fresh", "one"} {
+		// the targets change, the links do not
+		top := Rule{K: "file_set", Dir: "p0", Local: "all", Name: "p0/all", Include: []string{"p0/links"}}
+		cs = append(cs, Case{Stream: "corpus-links", Builder: style, Pkgs: []string{"p0"}, Rules: []Rule{links, top}, Src: src,
+			Ops: []Op{build("p0/all"),
+				set("p0/unlisted.txt", "unlisted, longer now\n", 10), build("p0/all"), // target not a dependency of the set
+				outside("outside, longer now\n", 11), build("p0/all"),
+				set("p0/listed.txt", "listed, longer\n", 12), build("p0/all"), // target that is itself listed
+				set("p0/d/deep.txt", "deeper\n", 13), build("p0/all"), build("p0/all")}})
+		// the links change
+		cs = append(cs, Case{Stream: "corpus-links", Builder: style, Pkgs: []string{"p0"}, Rules: []Rule{links, sel, all}, Src: src,
+			Ops: []Op{build("p0/all"),
+				setLink("touch", "p0/other.lnk", "unlisted.txt", 20), build("p0/all"),
+				setLink("retarget-link", "p0/other.lnk", "listed.txt", 21), build("p0/all"),
+				setLink("retarget-link", "p0/dangling.lnk", "unlisted.txt", 22), build("p0/all"),
+				set("p0/in.lnk", "now a file\n", 23), build("p0/all"), // link replaced by a file ...
+				setLink("file-to-link", "p0/in.lnk", "listed.txt", 24), build("p0/all"), // ... and back
+				setLink("retarget-link", "p0/out.lnk", "nowhere", 25), build("p0/all"),
+				{K: "src", What: "delete", Name: "p0/dir.lnk"}, build("p0/sel"), build("p0/all")}})
+	}
+	return cs
+}
+
 func genCases(seed uint64, thorough bool) []Case {
 	r := hx.NewRng(seed)
 	cs := corpus()
@@ -828,6 +993,7 @@ func genCases(seed uint64, thorough bool) []Case {
 	}
 	cs = append(cs, oneBuilderCorpus()...)
 	cs = append(cs, nestedCorpus()...)
+	cs = append(cs, linkCorpus()...)
 	for _, c := range oneBuilderCorpus()[:3] { // ... and from inside the package directory
 		c.Work = "pkg"
 		c.Stream += "-workdir"
